@@ -31,6 +31,10 @@ TlvG(b, i, der) ==
            IF i + 3 > Len(b) THEN Bad("ber: truncated length")
            ELSE IF der /\ b[i+2] = 0 THEN Bad("der: non-minimal length (0x82)")
            ELSE [ok |-> TRUE, tag |-> t, hl |-> 4, len |-> U16BE(b, i+2)]
+    ELSE IF l0 = 131 /\ ~der THEN
+           IF i + 4 > Len(b) THEN Bad("ber: truncated length")
+           ELSE IF b[i+2] # 0 THEN Bad("ber: length beyond 16 bits")
+           ELSE [ok |-> TRUE, tag |-> t, hl |-> 5, len |-> U16BE(b, i+3)]
     ELSE Bad("ber: unsupported length form")
 
 Tlv(b, i) == TlvG(b, i, FALSE)
